@@ -28,6 +28,14 @@ pub enum IterDirection { Forward, Reverse }
 //@item EventRecord
 //@item PartitionEvents
 //@item StreamEvents
+//@item GetPartitionSequence
+//@item GetStreamVersion
+/// kameo's reply context, reduced to `reply` (an immediate answer). A handler that falls through to the forwarding path is
+/// represented by the slice's tail value `NotAnsweredLocally`.
+pub struct Ctx;
+#[derive(Debug)]
+pub enum Replied { Now(Result<Option<u64>, ClusterError>), NotAnsweredLocally }
+impl Ctx { pub fn reply(&mut self, v: Result<Option<u64>, ClusterError>) -> Replied { Replied::Now(v) } }
 #[derive(Debug)]
 pub enum ClusterError { Read(String), NoAvailablePartitions }
 #[derive(Debug)]
@@ -47,11 +55,19 @@ pub struct Group { pub evs: [EventRecord; SCRIPT_LEN], pub lo: usize, pub hi: us
 impl Iterator for Group { type Item = EventRecord; fn next(&mut self) -> Option<EventRecord> { if self.lo < self.hi { self.lo += 1; Some(self.evs[self.lo - 1].clone()) } else { None } } }
 pub struct Batch { pub g: Option<Group> }
 impl Iterator for Batch { type Item = Group; fn next(&mut self) -> Option<Group> { self.g.take() } }
-pub struct Script { pub events: [EventRecord; SCRIPT_LEN], pub n: usize, pub cut1: usize, pub pos: usize }
+pub struct Script { pub events: [EventRecord; SCRIPT_LEN], pub n: usize, pub cut1: usize, pub pos: usize, pub rev: bool }
 pub struct DbIter { pub s: Script }
 impl DbIter {
     pub fn next_batch(&mut self, limit: usize) -> Result<Option<Batch>, DbError> {
         if limit == 0 || self.s.pos >= self.s.n { return Ok(None); }
+        if self.s.rev {
+            // reverse scan: `events` is ascending, the transactions are [0, cut1) and [cut1, n). The k-th group is read at the offset
+            // of the k-th NEWEST event and holds that event and the later events of ITS transaction (a group may repeat events).
+            let idx = self.s.n - 1 - self.s.pos;
+            let hi = if idx < self.s.cut1 { self.s.cut1 } else { self.s.n };
+            self.s.pos += 1;
+            return Ok(Some(Batch { g: Some(Group { evs: self.s.events.clone(), lo: idx, hi }) }));
+        }
         let end = if self.s.pos < self.s.cut1 { self.s.cut1 } else { self.s.n };
         let g = Group { evs: self.s.events.clone(), lo: self.s.pos, hi: end };
         self.s.pos = end;
@@ -84,6 +100,8 @@ impl ClusterActor {
 //@item partition_read_slice
 //@item stream_read_slice
 //@item local_read_slice
+//@item partition_sequence_slice
+//@item stream_version_slice
 }
 
 #[cfg(kani)]
@@ -96,7 +114,7 @@ mod verif {
         let n: usize = kani::any();
         let cut1: usize = kani::any();
         kani::assume(n <= SCRIPT_LEN && cut1 >= 1 && cut1 <= n.max(1));
-        Script { events: [ev(start, v0), ev(start + 1, v0 + 1), ev(start + 2, v0 + 2)], n, cut1, pos: 0 }
+        Script { events: [ev(start, v0), ev(start + 1, v0 + 1), ev(start + 2, v0 + 2)], n, cut1, pos: 0, rev: false }
     }
 
     /// ReadPartition: every returned event is below the watermark; events are the gapless prefix from start; count respected
@@ -171,7 +189,7 @@ mod verif {
         let wm: Option<u64> = kani::any();
         let nf: u8 = kani::any();
         kani::assume(nf < 200);
-        let script = Script { events: [e.clone(), e.clone(), e.clone()], n: if stored { 1 } else { 0 }, cut1: 1, pos: 0 };
+        let script = Script { events: [e.clone(), e.clone(), e.clone()], n: if stored { 1 } else { 0 }, cut1: 1, pos: 0, rev: false };
         let actor = ClusterActor { database: Database { script: std::cell::RefCell::new(Some(script)) }, watermarks: Watermarks { pid: 3, w: wm.map(|v| Wm { v }) }, replication_factor: rf, local_peer_id: 1 };
         let mut slot: Option<Result<Option<EventRecord>, ClusterError>> = None;
         unsafe { FORWARDED = 0; }
@@ -183,6 +201,54 @@ mod verif {
             Some(Ok(None)) => { assert!(!visible && unsafe { FORWARDED } == 0 && nf + 1 >= quorum, "`not found` only once a quorum of replicas did not have it"); }
             Some(Err(_)) => { assert!(false, "no error on a healthy store"); }
             None => { assert!(!visible && unsafe { FORWARDED } == 1, "otherwise the request is forwarded to the next replica, once"); }
+        }
+    }
+
+    /// GetPartitionSequence: the last confirmed sequence of a locally owned partition is watermark - 1 (None for watermark 0)
+    #[kani::proof]
+    fn gate_partition_sequence() {
+        let wm: Option<u64> = kani::any();
+        let pid: PartitionId = kani::any();
+        let actor = ClusterActor { database: Database { script: std::cell::RefCell::new(None) }, watermarks: Watermarks { pid: 3, w: wm.map(|v| Wm { v }) }, replication_factor: 3, local_peer_id: 1 };
+        let mut ctx = Ctx;
+        kani::cover!(pid == 3 && wm == Some(0), "reachable: an owned partition with nothing confirmed");
+        match actor.partition_sequence_slice(GetPartitionSequence { partition_id: pid }, &mut ctx) {
+            Replied::Now(Ok(Some(s))) => { assert!(pid == 3 && wm.is_some() && s < wm.unwrap() && s + 1 == wm.unwrap(), "the sequence reported is the last one BELOW the confirmed watermark"); }
+            Replied::Now(Ok(None)) => { assert!(pid == 3 && wm == Some(0), "`no events` only when nothing is confirmed"); }
+            Replied::Now(Err(_)) => { assert!(false, "no error for an owned partition"); }
+            Replied::NotAnsweredLocally => { assert!(pid != 3 || wm.is_none(), "an owned partition is answered from its watermark"); }
+        }
+    }
+
+    /// GetStreamVersion: the version reported is the highest stream version among the events BELOW the watermark
+    #[kani::proof]
+    #[kani::unwind(6)]
+    fn gate_stream_version() {
+        // the stream's events in ascending order, as two transactions [0, cut1) and [cut1, n); sequences strictly ascending with gaps
+        // (events of other streams in between), versions gapless
+        let n: usize = kani::any();
+        let cut1: usize = kani::any();
+        kani::assume(n <= SCRIPT_LEN && cut1 <= n);
+        let s0: u64 = kani::any();
+        let v0: u64 = kani::any();
+        kani::assume(s0 < u64::MAX - 16 && v0 < u64::MAX - 16);
+        let d1: u64 = kani::any(); let d2: u64 = kani::any();
+        kani::assume(d1 >= 1 && d1 <= 3 && d2 > d1 && d2 <= 6);
+        let asc = [ev(s0, v0), ev(s0 + d1, v0 + 1), ev(s0 + d2, v0 + 2)];
+        let script = Script { events: asc.clone(), n, cut1, pos: 0, rev: true };
+        let watermark: u64 = kani::any();
+        let actor = ClusterActor { database: Database { script: std::cell::RefCell::new(Some(script)) }, watermarks: Watermarks { pid: 3, w: Some(Wm { v: watermark }) }, replication_factor: 3, local_peer_id: 1 };
+        kani::cover!(n == 3 && cut1 == 1 && watermark > s0 + d2, "reachable: a two-event transaction is the newest one and fully confirmed");
+        kani::cover!(n == 3 && watermark == s0 + d1, "reachable: watermark inside the history");
+        let wm = Wm { v: watermark };
+        let r = actor.stream_version_slice(GetStreamVersion { partition_id: 3, stream_id: StreamId(1) }, &wm);
+        // expected: the newest event below the watermark
+        let mut expect: Option<u64> = None;
+        let mut k = 0;
+        while k < n { if asc[k].partition_sequence < watermark { expect = Some(asc[k].stream_version); } k += 1; }
+        match r {
+            Ok(got) => { assert!(got == expect, "the stream version reported is the highest version among the events below the confirmed watermark (None iff there is none)"); }
+            Err(_) => { assert!(false, "no error on a healthy store"); }
         }
     }
 }
